@@ -6,6 +6,7 @@ import (
 	"sync"
 	"time"
 
+	"github.com/wmnsk/go-pfcp/ie"
 	"github.com/wmnsk/go-pfcp/message"
 )
 
@@ -35,6 +36,18 @@ func H_C13_digest() {
 		s.fars = append(s.fars, f)
 	}
 	_ = e.pc.store.PutSession(s)
+	if vBool("cp_fseid_changed_by_a_modification") {
+		// the control plane moves the session to another CP F-SEID: reports must be
+		// addressed with the SEID that is current when they are sent
+		newCP := vU64("remote_seid_2")
+		e.dp.fixedCause = 1
+		nw := len(e.conn.writes)
+		e.vSend(message.NewSessionModificationRequest(0, 0, seid, 7, 0, vCPFSEID(newCP)))
+		m, okm := e.vLastReply().(*message.SessionModificationResponse)
+		vAssume(len(e.conn.writes) == nw+1 && okm && vCauseOf(m.Cause) == ie.CauseRequestAccepted)
+		rseid = newCP
+		vCover("cp-fseid-changed")
+	}
 	e.pc.seqNum.seq = vU32("prev_seq") & 0xffffff
 	prevSeq := e.pc.seqNum.seq
 
